@@ -1000,6 +1000,11 @@ func (c *compiler) evalForExpression(node *ast.ForExpression) (interface{}, erro
 		for i := 0; i < len(keys); i++ {
 			k := keys[i]
 			v := riter.MapIndex(k)
+			if !v.IsValid() {
+				// the entry was deleted by an earlier iteration: like Go's range, skip it
+				continue
+			}
+
 			c.ctx.Set(node.KeyName, k.Interface())
 			c.ctx.Set(node.ValueName, v.Interface())
 
